@@ -86,7 +86,9 @@ func (d *rawDecoder) Scan(ctx context.Context) (DecodedAmmo, error) {
 		}
 
 		data, err = d.reader.ReadString('\n')
-		if err == io.EOF {
+		// the last line of a file may lack its newline: ReadString then returns the line together with io.EOF,
+		// and only the next call returns io.EOF alone
+		if err == io.EOF && len(data) == 0 {
 			d.passNum++
 			if d.config.Passes != 0 && d.passNum >= d.config.Passes {
 				return nil, ErrPassLimit
@@ -102,7 +104,7 @@ func (d *rawDecoder) Scan(ctx context.Context) (DecodedAmmo, error) {
 			continue
 		}
 		position := filePosition(d.file)
-		if err != nil {
+		if err != nil && err != io.EOF {
 			return nil, xerrors.Errorf("reading ammo failed with err: %w, at position: %v", err, position)
 		}
 		data = strings.TrimSpace(data)
